@@ -40,8 +40,33 @@ def main():
     except subprocess.TimeoutExpired as ex:
         print('INFRA-ERROR {}: timeout {}'.format(pid, ex))
         return 2
-    except Exception:
+    except Exception as ex:
         traceback.print_exc()
+        # An exception raised INSIDE the qecsim tree under test that the harness did not expect is a broken
+        # correspondence (the real code raised where, on the unchanged tree, it does not): report it as a violation
+        # without a failing input of the property. Exceptions raised in harness code stay infrastructure errors.
+        tb = traceback.extract_tb(ex.__traceback__)
+        src = os.path.realpath(os.path.join(core.REPO, 'src')) + os.sep
+        inner = tb[-1] if tb else None
+        if inner is not None and os.path.realpath(inner.filename).startswith(src) and 'ctx' in locals():
+            try:
+                v = {'kind': 'correspondence-break', 'via': 'implementation-raised',
+                     'broken': 'correspondence {}: the implementation raised {} at {}:{} ({}) where the harness expects '
+                               'no exception'.format(pid, type(ex).__name__, os.path.relpath(inner.filename, src),
+                                                     inner.lineno, inner.name),
+                     'exception': repr(ex)[:500],
+                     'harness_frames': ['{}:{} {}'.format(os.path.basename(f.filename), f.lineno, f.name)
+                                        for f in tb if not os.path.realpath(f.filename).startswith(src)][-6:],
+                     'note': 'no-failing-input-found'}
+                path = ctx.write_replay([v])
+                try:
+                    ctx.write_evidence(getattr(mod, 'RULE', ''), 'run aborted: ' + v['broken'], 1)
+                except Exception:
+                    pass
+                print('VIOLATION property={} replay={} no-failing-input-found'.format(pid, path))
+                return 1
+            except Exception:
+                traceback.print_exc()
         print('INFRA-ERROR {}: harness exception'.format(pid))
         return 2
 
